@@ -319,7 +319,9 @@ def run(project: Project, rep, tier: str):
             return None
         stf = obj
         # requested = what the setters were asked: verify through coverage of data min/max
+        n_ref0, n_err0 = len(rep.refutations), len(rep.errors)
         check_state(rep, fit, fit.node, f"after fit(skew={skew}, {len(names)} diagram(s))", stf, req_b, req_p)
+        state_ok = len(rep.refutations) == n_ref0 and len(rep.errors) == n_err0 and not I.unmodelled and not I.lossy
         # GE-FIT: a place that truth-tests None on one visit and a number computed from the data on another takes a
         # legitimate 0 (minimum birth 0, a point on the diagonal) for 'nothing seen yet'
         for rec in getattr(I, "truth_kinds", {}).values():
@@ -334,7 +336,13 @@ def run(project: Project, rep, tier: str):
         stores = [ev for ev in I.log if ev["kind"] == "attrstore" and ev["fi"] is fit]
         direct = [ev for ev in stores if ev["attr"] in ("_width", "_height", "_resolution", "_bpnts", "_ppnts",
                                                          "_birth_range", "_pers_range")]
-        if direct:
+        if direct and state_ok:
+            # fit updates the private attributes itself (through a helper it shares with the setters, say): what counts is the
+            # state it leaves, and that was evaluated above — ranges covered, extent = resolution × pixel, mesh on the pixels
+            rep.discharged("GE-FIT", fit, direct[0]["node"],
+                           f"fit(skew={skew}) writes `{direct[0]['attr']}` itself; the state it leaves was evaluated and satisfies "
+                           f"the geometry invariants")
+        elif direct:
             rep.refuted("GE-FIT", fit, direct[0]["node"], f"fit writes `{direct[0]['attr']}` directly instead of going through "
                                                           f"the range setters (extent/resolution/mesh are not recomputed)")
         elif {ev["attr"] for ev in stores} >= {"birth_range", "pers_range"}:
